@@ -388,6 +388,15 @@ Section Spectra.
 
 End Spectra.
 
+(* evenness in the lag: every public evaluation function of an elementary class is a function of |r| *)
+Theorem elem_functions_even ora c p ell var nugget r :
+  correlation_elem (Rops02 ora) c p ell (- r) = correlation_elem (Rops02 ora) c p ell r
+  /\ covariance_elem (Rops02 ora) c p ell var (- r) = covariance_elem (Rops02 ora) c p ell var r
+  /\ variogram_elem (Rops02 ora) c p ell var nugget (- r) = variogram_elem (Rops02 ora) c p ell var nugget r.
+Proof.
+  unfold variogram_elem, covariance_elem, correlation_elem. simpl. rewrite Rabs_Ropp. repeat split; reflexivity.
+Qed.
+
 (* the sign hypotheses are satisfiable (so no theorem above is vacuous): a constant-1 oracle *)
 Example oracle_hypotheses_satisfiable :
   let ora := fun (_ : nat) (_ : list R) => 1 in
